@@ -326,6 +326,34 @@ def run(ctx, res):
             res.bad("CYCLE-GUARD", L.path + " # recursion",
                     "the recursive import load is not guarded by `paths_seen.contains(path)` false-edge + `paths_seen.insert(path)` (cyclic imports would loop)",
                     L.loc(t["span"]))
+    # ---------------- IMPORT-BINDS: an import of a file that was already loaded (a second importer in a diamond, or a cycle) still
+    # has to make that file's public definitions visible: on the already-seen edge, whenever the namespace exists, every
+    # path goes through insert_imported_namespace (the filter that copies exported names only)
+    inserts = [bi for bi, t in L.calls() if (M.callee_name(t) or "").endswith("insert_imported_namespace")]
+    res.floor("IMPORT-BINDS", "insert_imported_namespace calls in the loader", len(inserts), 2)
+    for s_ in seen_sw:
+        treg = D.edge_dominated(L, s_["bb"], s_["true"]) if s_["true"] is not None else set()
+        gets = [(bi, t) for bi, t in L.calls() if bi in treg and (M.callee_name(t) or "").endswith("Env::get_namespace")]
+        for gb, gt in gets:
+            some = None
+            for esw in D.enum_switches(L):
+                if esw["place"]["l"] == gt["dest"]["l"] and not esw["place"]["p"]:
+                    for tgt, names in esw["by_target"].items():
+                        if "Some" in names:
+                            some = tgt
+                    if some is None and "Some" in esw["otherwise_variants"]:
+                        some = esw["otherwise"]
+            if some is None:
+                res.bad("IMPORT-BINDS", L.path + " # seen-edge # no Some edge", "cannot find the `Some(namespace)` edge of get_namespace on the already-seen path", L.loc(gt.get("span")))
+                continue
+            leave = {x for b in treg for x in L.succ[b] if x not in treg}
+            esc = D.reach_from(L, [some], avoid_blocks=inserts) & leave
+            if esc:
+                res.bad("IMPORT-BINDS", L.path + " # seen-edge # bypass",
+                        "an import of a file that is already loaded can skip insert_imported_namespace although the namespace exists: with two importers of one file "
+                        "(a diamond) the second importer does not get the file's public definitions", L.loc(gt.get("span")))
+            else:
+                res.ok("IMPORT-BINDS", "already-seen import: every path from Some(namespace) passes insert_imported_namespace")
     # ---------------- FRAME-NAMESPACE: the body of a function, method, closure or test resolves bare names in the namespace
     # of the file that *defines* it. Every call frame's `namespace` is get_or_create_namespace(<path>) with <path> taken from
     # the callee's own definition (FunInfo.pos, or the test's name symbol), never from a position of the call site: otherwise a
